@@ -119,7 +119,7 @@ public:
             for (XMLSize_t i = 0; i < a.getLength(); i++) {
                 if (XMLString::equals(a.getURI(i), XMLUni::fgXMLNSURIName)) continue;
                 if (XMLString::equals(a.getURI(i), SchemaSymbols_XSI())) continue;
-                attrs.push_back(san(a.getQName(i)) + "=" + san(a.getValue(i)));
+                attrs.push_back(san(a.getURI(i)) + "|" + san(a.getLocalName(i)) + "=" + san(a.getValue(i)));
             }
         if (depth == 1) curText.clear();
         depth++;
@@ -158,7 +158,7 @@ static void domRootInfo(DOMDocument* doc, std::string& attrs, std::string& kids)
             DOMNode* a = m->item(i);
             if (XMLString::equals(a->getNamespaceURI(), XMLUni::fgXMLNSURIName)) continue;
             if (XMLString::equals(a->getNamespaceURI(), RootAttrs::SchemaSymbols_XSI())) continue;
-            av.push_back(san(a->getNodeName()) + "=" + san(a->getNodeValue()));
+            av.push_back(san(a->getNamespaceURI()) + "|" + san(a->getLocalName()) + "=" + san(a->getNodeValue()));
         }
         for (DOMNode* c = r->getFirstChild(); c; c = c->getNextSibling())
             if (c->getNodeType() == DOMNode::ELEMENT_NODE) {
